@@ -42,8 +42,8 @@ WIDTH2 = ["crop", "extend_crop"]
 TIERS = {
     "quick": dict(count_trees=30, count_nums=6, oct_depth=3, oct_nodes=6, oct_trees=110, oct_random=4, long_numerals=60,
                   width_trees=24, widths=[0, 1, 2, 3, 4, 6], cap=20, task_timeout=400),
-    "thorough": dict(count_trees=150, count_nums=9, oct_depth=4, oct_nodes=9, oct_trees=10 ** 6, oct_random=6, long_numerals=400,
-                     width_trees=10 ** 6, widths=[0, 1, 2, 3, 4, 5, 6, 9], cap=60, task_timeout=1500),
+    "thorough": dict(count_trees=500, count_nums=9, oct_depth=4, oct_nodes=9, oct_trees=10 ** 6, oct_random=8, long_numerals=3000,
+                     width_trees=10 ** 6, widths=[0, 1, 2, 3, 4, 5, 6, 7, 9], cap=60, task_timeout=1500, deeper=(1, 3)),
 }
 GCFG = "INIT GInit\nNEXT GNext\nCHECK_DEADLOCK FALSE\n"
 JCFG = "INIT JInit\nNEXT JNext\nINVARIANT Judged\nCHECK_DEADLOCK FALSE\n"
@@ -92,7 +92,8 @@ def numeral(nt, dg, s, ids=None):
 
 def build_rows(chk, wd):
     P = TIERS[chk.tier]
-    jobs = [(n, v[0], v[2], v[3]) for n, v in COUNT_PLAN.items()] + [(n, v[0], v[2], v[3]) for n, v in WIDTH_PLAN.items()]
+    dd, dn = P.get("deeper", (0, 0))      # thorough: text trees one level deeper
+    jobs = [(n, v[0], v[2], v[3]) for n, v in COUNT_PLAN.items()] + [(n, v[0], v[2] + dd, v[3] + dn) for n, v in WIDTH_PLAN.items()]
     jobs.append(("OCT", ["<octal_digits>", "<decimal_digits>"], P["oct_depth"], P["oct_nodes"]))
     gens = tmap(lambda j: gen(wd, *j), jobs, nthreads=min(NPROC, 5))
     trees = {}
